@@ -16,7 +16,7 @@ if $APPLIES; then
   if [ "${SKIP_TESTS:-0}" != "1" ]; then
     TESTS=$(cd "$D" && PYTHONPATH="$D" timeout 1800 /venv/bin/python -m pytest -q -p no:cacheprovider tests 2>&1 | tail -1)
   fi
-  CHECKOUT=$(HDC_REPO="$D" VERIF_SEED=${VERIF_SEED:-1} timeout 3000 /verif/check "$ID" --tier ${TIER:-quick} 2>&1 | grep -E "VIOLATION|sub-check|held|violated|HARNESS" | head -6)
+  CHECKOUT=$(VERIF_EVIDENCE_DIR=/tmp/evidence_scratch HDC_REPO="$D" VERIF_SEED=${VERIF_SEED:-1} timeout 3000 /verif/check "$ID" --tier ${TIER:-quick} 2>&1 | grep -E "VIOLATION|sub-check|held|violated|HARNESS" | head -6)
   if echo "$CHECKOUT" | grep -q "^VIOLATION"; then CHECK=caught; elif echo "$CHECKOUT" | grep -q HARNESS; then CHECK=harness_error; else CHECK=missed; fi
 fi
 /venv/bin/python - "$SD/eval.json" "$ID" "$V" "$APPLIES" "$DEMO_CLEAN" "$DEMO_PATCHED" "$TESTS" "$CHECK" "$CHECKOUT" <<'P'
